@@ -13,6 +13,7 @@ SIM = os.path.dirname(os.path.abspath(__file__))
 ROOT = os.path.dirname(SIM)
 REPO = os.environ.get("VERIF_REPO", "/repo")
 WORK = os.environ.get("VERIF_WORK", SIM)
+OUT = os.environ.get("VERIF_OUT", ROOT)
 TARGET = os.path.join(WORK, "target")
 GEN = os.path.join(WORK, "gen")
 JOBS = int(os.environ.get("VERIF_JOBS", "0")) or (os.cpu_count() or 4)
@@ -210,7 +211,7 @@ def first_diff(a, b):
 
 
 def write_replay(body):
-    d = os.path.join(ROOT, "replays", "C17")
+    d = os.path.join(OUT, "replays", "C17")
     os.makedirs(d, exist_ok=True)
     blob = json.dumps(body, sort_keys=True, indent=1, ensure_ascii=False)
     h = hashlib.sha256(blob.encode()).hexdigest()[:12]
@@ -315,7 +316,7 @@ def check(tier, seed):
         "parameter map per feature entry (true on the unchanged tree); it is a measure only, not part of the oracle",
         "uncontrolled RandomState runs are not used to decide anything",
     ]
-    d = os.path.join(ROOT, "evidence")
+    d = os.path.join(OUT, "evidence")
     os.makedirs(d, exist_ok=True)
     with open(os.path.join(d, "C17.json"), "w") as f:
         json.dump({"property_id": "C17", "tier": tier, "seed": seed, "level": "exploration", "coverage": cov,
